@@ -109,3 +109,33 @@ PROPS["C17"] = {
     "level_text": "Bounded symbolic model checking of the real strz helpers against rune-slice definitions: all scalar values of every UTF-8 width per rune and all 64-bit non-negative arguments are covered symbolically on each path; arbitrary (invalid) byte strings are checked for absence of panics.",
     "level_note": "Trusted: go/ssa, gosym (witness-validated each run), z3. unicode/utf8 is executed from its own SSA, not modelled.",
 }
+
+# ------------------------------------------------------------------------------------------- C10
+c10 = "vh/c10."
+PROPS["C10"] = {
+    "patterns": ["./c10"],
+    "overlay": {"/repo/ringz/zz_verif_hooks.go": "inpkg/ringz_zz.go"},
+    "level": "model_checking",
+    "quick": [
+        J(c10 + "RingSeq", maxcap=4, ops=3, maxrecap=6, covers=["recap ok", "expanded"]),
+        J(c10 + "RingInit"),
+        J(c10 + "SyncSeq", maxreq=5, ops=4),
+        J(c10 + "SyncInit"),
+        J(c10 + "SyncWrap", maxreq=4, ops=3, covers=["counter near wrap"]),
+        J(c10 + "Roundup"),
+    ],
+    "thorough": [
+        J(c10 + "RingSeq", maxcap=5, ops=4, maxrecap=8, covers=["recap ok", "expanded"]),
+        J(c10 + "RingInit"),
+        J(c10 + "SyncSeq", maxreq=9, ops=5),
+        J(c10 + "SyncInit"),
+        J(c10 + "SyncWrap", maxreq=8, ops=4, covers=["counter near wrap"]),
+        J(c10 + "Roundup"),
+    ],
+    "bounds": {"quick": "Ring: capacities 1..4, every rotation and fill, 3 arbitrary operations (Push/Pop/Recap(n<=6, all n<=0)/PushWithExpand/observers) with symbolic values, then drain; SyncRing: requested capacities 1..5 (public API, counters from 0, 4 operations) and 1..4 from an arbitrary representation-invariant state with the absolute head counter symbolic over all 2^32 values (3 operations, invariant re-checked after each: inductive step); roundupPowOfTwo for all 2^32 arguments",
+               "thorough": "Ring capacities 1..5, 4 operations, Recap n<=8; SyncRing requests 1..9 / 5 operations; wrap variant requests 1..8 / 4 operations"},
+    "outside": ["longer operation sequences from one state (covered inductively for SyncRing by the invariant step, not for Ring)", "Ring capacities above the bound", "PushWait/PopWait with positive timeout (ticker)"],
+    "assumptions": ["in-package constructor VerifSyncRingAt builds exactly the states described by the representation invariant (head, tail, per-slot sequence numbers); the same harness re-checks that invariant after every step"],
+    "level_text": "Bounded symbolic model checking of Ring and SyncRing against a FIFO slice model: values, Recap arguments and the absolute 32-bit position counter are symbolic, capacities/rotations/operation sequences are enumerated; for SyncRing one arbitrary step from an arbitrary invariant state (all 2^32 counter values, wrap-around included) is shown to give the model's result and re-establish the invariant, which covers histories of any length.",
+    "level_note": "Trusted: go/ssa, gosym, z3, and the overlay constructor (in /verif/inpkg, injected with go/packages overlays; if the private fields are renamed the overlay fails to type-check and the check reports inconclusive, never a violation).",
+}
